@@ -338,7 +338,10 @@ int request::on_content_progress(size_t n)
 				if(lazy_content_type().is_form_urlencoded()) {
 					char const *data = &d->post_data[0];
 					char const *data_end = data + d->post_data.size();
-					parse_form_urlencoded(data,data_end,post_);
+					if(!parse_form_urlencoded(data,data_end,post_)) {
+						post_.clear();
+						return 400;
+					}
 				}
 			}
 			else {
